@@ -1,3 +1,4 @@
+from rtamt.semantics.arithmetic import saturating
 import math
 import operator
 from collections import deque
@@ -357,7 +358,7 @@ class StlDenseTimeOfflineAstVisitor(StlAstVisitor):
         sample_return = []
         for i in sample:
             out_time = i[0]
-            out_value = math.exp(i[1])
+            out_value = saturating.exp(i[1])
             sample_return.append([out_time, out_value])
         return sample_return
 
